@@ -142,7 +142,10 @@ pub fn check(c: &Case) -> Outcome {
     if a.to_bits() != x0.to_bits() {
         return Outcome::viol(format!("{}: dense span starts at {:e}, not x0={:e}", name, a, x0));
     }
-    if (b - g_last).abs() > 4.0 * ulp(g_last.abs().max(b.abs())) {
+    // (the span end is xold + h of the last step: its rounding is relative to the larger end of that step, which matters
+    // when the run ends near t = 0)
+    let g_prev = grid[grid.len() - 2];
+    if (b - g_last).abs() > 4.0 * ulp(g_last.abs().max(b.abs()).max(g_prev.abs())) {
         return Outcome::viol(format!("{}: dense span ends at {:e} but the last accepted step ended at {:e}", name, b, g_last));
     }
     // every accepted step end is reproduced; continuity across the boundary
